@@ -1,10 +1,12 @@
 //! C07/C08/C09 (writer family):
 //! `c07w <e|c> <css|scss> <hex src> [<tree term, ignored here>]` -> `ok:<hex css>` | `err:<hex msg>`
 //!     one compilation of `src`; the tree term is read by the Lean model only.
-//! `c08both <css|scss> <hex src> [<files>]` -> `<expanded result>\t<compressed result>`
+//! `c08both <css|scss> <hex src> [<files>|-] [trees…]` -> `<expanded result>|<compressed result>`
 //!     the same source compiled in both styles (each `ok:<hex>` | `err:<hex msg>`).
-//! `c09rt <css|scss> <hex src>` -> `<first>\t<reread>`: expanded output of `src`, and the
+//! `c09rt <css|scss> <hex src>` -> `<first>|<reread>`: expanded output of `src`, and the
 //!     expanded output of that output read back as plain CSS (`SourceFile::css_bytes`).
+//! `c09str <hex utf-8 value>` -> `<hex of CssString{value, Double}.to_string()>|<ok|err>`: the Display text, and
+//!     whether `a{b:<that text>}` is accepted by the plain-CSS reader.
 use crate::util::*;
 
 pub fn run(op: &str, f: &[&str]) -> Option<String> {
@@ -28,7 +30,7 @@ pub fn run(op: &str, f: &[&str]) -> Option<String> {
                 return Some("bad-args".into());
             }
             let name = if f[0] == "css" { "in.css" } else { "in.scss" };
-            let files = parse_files(f.get(2).copied().unwrap_or(""));
+            let files = parse_files(f.get(2).copied().filter(|s| *s != "-").unwrap_or(""));
             let mut out = Vec::new();
             for st in ["e", "c"] {
                 let r = compile_mem(
@@ -40,7 +42,7 @@ pub fn run(op: &str, f: &[&str]) -> Option<String> {
                 );
                 out.push(r.line());
             }
-            Some(out.join("\t"))
+            Some(out.join("|"))
         }
         "c09rt" => {
             if f.len() < 2 {
@@ -65,7 +67,20 @@ pub fn run(op: &str, f: &[&str]) -> Option<String> {
                 .line(),
                 Outcome::Err(_) => "skip".to_string(),
             };
-            Some(format!("{}\t{}", first.line(), second))
+            Some(format!("{}|{}", first.line(), second))
+        }
+        "c09str" => {
+            let v = unhex_str(f.first().copied().unwrap_or(""));
+            let shown = rsass::css::CssString::new(v, rsass::value::Quotes::Double).to_string();
+            let src = format!("a{{b:{shown}}}");
+            let r = compile_mem(
+                "css",
+                format("e", "10"),
+                "s.css",
+                src.as_bytes(),
+                MemLoader::new(Default::default()),
+            );
+            Some(format!("{}|{}", hex(shown.as_bytes()), r.class()))
         }
         _ => None,
     }
